@@ -79,23 +79,22 @@ Theorem C01_save_nested_none_refuted :
 Proof. exact save_nested_none_witness. Qed.
 Print Assumptions C01_save_nested_none_refuted.
 
-(* skip_default with nulls kept: a subclass spec over the declared default None makes the dump itself raise
-   (`default.get("class_path")` on None) *)
-Theorem C01_skip_default_none_default_refuted :
-  fx_subclass_trim = false /\
-  rt some_text yaml_skipdef {| lf_key := kx; lf_ty := base_ty; lf_def := VNone |}
-     (spec p_base [(VStr k_init_args, VDict [(VStr ka, VInt 1)])]) = None.
+(* regression witnesses (repaired in /repo 2b39397, fixes/C01-skip-default-subclass-spec.patch): the rule before the fix
+   (trim_gen false) made a skip_default dump with nulls kept raise for a subclass spec over the declared default None
+   (`default.get("class_path")` on None), and deleted a spec whose class and init_args were the default's although its
+   dict_kwargs differed; the rule now modelled (trim) keeps class_path resp. the whole spec *)
+Theorem C01_skip_default_none_default_prefix_refuted :
+  trim_gen false base_ty (spec p_base [(VStr k_init_args, VDict [(VStr ka, VInt 1)])]) VNone = TErr /\
+  trim base_ty (spec p_base [(VStr k_init_args, VDict [(VStr ka, VInt 1)])]) VNone = TKeep (spec p_base []).
 Proof. exact skip_default_none_default_witness. Qed.
-Print Assumptions C01_skip_default_none_default_refuted.
+Print Assumptions C01_skip_default_none_default_prefix_refuted.
 
-(* skip_default deletes a spec whose class and init_args are the default's although its dict_kwargs differ *)
-Theorem C01_skip_default_dict_kwargs_refuted :
-  fx_subclass_trim = false /\
-  exists w', rt some_text yaml_skipdef {| lf_key := kx; lf_ty := base_ty; lf_def := spec p_kw [] |}
-               (spec p_kw [(VStr k_dict_kwargs, VDict [(VStr ka, VInt 1)])]) = Some w' /\
-             veq w' (spec p_kw [(VStr k_dict_kwargs, VDict [(VStr ka, VInt 1)])]) = false.
+Theorem C01_skip_default_dict_kwargs_prefix_refuted :
+  trim_gen false base_ty (spec p_kw [(VStr k_dict_kwargs, VDict [(VStr ka, VInt 1)])]) (spec p_kw []) = TDel /\
+  trim base_ty (spec p_kw [(VStr k_dict_kwargs, VDict [(VStr ka, VInt 1)])]) (spec p_kw [])
+    = TKeep (spec p_kw [(VStr k_dict_kwargs, VDict [(VStr ka, VInt 1)])]).
 Proof. exact skip_default_dict_kwargs_witness. Qed.
-Print Assumptions C01_skip_default_dict_kwargs_refuted.
+Print Assumptions C01_skip_default_dict_kwargs_prefix_refuted.
 
 (* skip_default prunes a spec of another class than the default's against that class's own defaults, but the re-parse
    carries the default spec's init_args over first: B{a: 1} over the default S{a: 5, b: 2} comes back as B{a: 5} *)
